@@ -205,6 +205,22 @@ Theorem C17_consumer_hostless_group_keeps_host :
 Proof. exact consumer_pass_hostless. Qed.
 Print Assumptions C17_consumer_hostless_group_keeps_host.
 
+(* the failure flag: listen hands Switch `e` = "the previous attempt failed", where an attempt fails
+   at Connect OR in the exchange after a successful Connect (`e = !s.session(c)`); the correspondence
+   run compares the flag of every pass with the outcome of the attempt before it (`expected_flags`).
+   With it, "last-valid changes only after a reported failure" has its converse: after ANY failed
+   attempt last-valid advances to the next entry *)
+Theorem C17_consumer_flag_is_attempt_outcome :
+  forall outs k o, nth_error outs k = Some o -> nth_error (expected_flags outs) k = Some (fst o || snd o).
+Proof. exact expected_flags_spec. Qed.
+Print Assumptions C17_consumer_flag_is_attempt_outcome.
+
+Theorem C17_consumer_failed_attempt_advances_last_valid :
+  forall n c g p o, attempt_failed o = true -> 0 <= c < n ->
+  switch SelLastValid n (Some c) (attempt_failed o) g p = (Some ((c + 1) mod n), negb (n =? 1)).
+Proof. exact failed_attempt_advances_last_valid. Qed.
+Print Assumptions C17_consumer_failed_attempt_advances_last_valid.
+
 (* non-vacuity: round-robin over A (host 1, wrapper 1) and host-less B (wrapper 4, transform 1):
    the second Connect goes through B's connector with B's wrapper and transform to A's host *)
 Example C17_nonvacuous_consumer :
